@@ -34,7 +34,7 @@ Lemma nolf_dec s : forallb dec_char s = true -> nolf s = true.
 Proof. apply forallb_impl. intros x. unfold dec_char, is_digit. lia. Qed.
 Lemma nolf_itoa z : nolf (itoa z) = true.
 Proof. apply nolf_dec, itoa_chars. Qed.
-Lemma nolf_one_line s : one_line s = true -> nolf s = true.
+Lemma nolf_one_line s : single_line s = true -> nolf s = true.
 Proof. apply forallb_impl. intros x. lia. Qed.
 Lemma nolf_clean s : clean_text s = true -> nolf s = true.
 Proof. apply forallb_impl. intros x. lia. Qed.
@@ -183,8 +183,8 @@ Section Cmd.
   Variable nok : list Z -> bool.
   (* the calibration JSON is one line that stripLineBreaks leaves alone; the NetworkConfig
      oracle pair round-trips (json.Unmarshal of json.Marshal) and prints one line *)
-  Hypothesis olt_ok : forall j, olt j = true -> strip_line_breaks j = j /\ one_line j = true.
-  Hypothesis nok_ok : forall n, nok n = true -> ncp (nc_print n) = Some n /\ one_line (nc_print n) = true.
+  Hypothesis olt_ok : forall j, olt j = true -> strip_line_breaks j = j /\ single_line j = true.
+  Hypothesis nok_ok : forall n, nok n = true -> ncp (nc_print n) = Some n /\ single_line (nc_print n) = true.
 
   Notation in_rd := (in_read js jm ncp).
   Notation seg := (seg js jm ncp).
